@@ -112,6 +112,21 @@ static std::string compareUpTo(const Schedule& a, const Schedule& b, size_t k, l
         if (!eq) ++g_opeq_false;
         if (da != db) {
             key = "state-differs:structural-dump";
+            // One leak is narrow enough to be told apart (known finding): a VFPPROD table whose ALQ type (item 7) is defaulted takes
+            // the type GRAT, and the gas rate unit for its ALQ axis, when LIFTOPT occurs ANYWHERE in the deck (ScheduleStatic::
+            // gaslift_opt_active).  With the ALQ type and axis of every table neutralised on both sides the states must be equal.
+            auto neutral = [](const ScheduleState& s) {
+                ScheduleState c = s;
+                for (int id : s.vfpprod.keys()) {
+                    const auto& t = s.vfpprod(id);
+                    c.vfpprod.update(VFPProdTable(t.getTableNum(), t.getDatumDepth(), t.getFloType(), t.getWFRType(), t.getGFRType(), VFPProdTable::ALQ_TYPE::ALQ_UNDEF,
+                                                  t.getFloAxis(), t.getTHPAxis(), t.getWFRAxis(), t.getGFRAxis(), std::vector<double>(t.getALQAxis().size(), 0.0), t.getTable()));
+                }
+                return sdump::dump(c);
+            };
+            bool alqDiffers = false;
+            for (int id : a[j].vfpprod.keys()) if (b[j].vfpprod.has(id) && a[j].vfpprod(id).getALQType() != b[j].vfpprod(id).getALQType()) alqDiffers = true;
+            if (alqDiffers && neutral(a[j]) == neutral(b[j])) key = "state-differs:vfpprod-defaulted-alq-type-follows-LIFTOPT-of-a-later-step";
             return "state " + std::to_string(j) + " (cut after step " + std::to_string(k) + "): operator== " + (eq ? "true" : "false") + ", structural dump " + (da == db ? "equal" : "differs " + sdump::firstDiff(da, db));
         }
     }
@@ -196,7 +211,7 @@ int main(int argc, char** argv) {
                 if (t.sched->size() != k + 2) { rep.count("cut_point_mismatch"); continue; }   // my step counting disagrees: skip, never report
                 std::string key, diff = compareUpTo(S, *t.sched, k, ncmp, key);
                 ++done;
-                if (!diff.empty()) { rep.violation(key + ":shipped", "truncating " + fs::path(path).filename().string() + " changes an earlier state: " + diff.substr(0, 300), "deck: " + path + "\n" + diff); break; }
+                if (!diff.empty()) { rep.violation(key.find("vfpprod-defaulted") != std::string::npos ? key : key + ":shipped", "truncating " + fs::path(path).filename().string() + " changes an earlier state: " + diff.substr(0, 300), "deck: " + path + "\n" + diff); break; }
             }
             rep.count("state_comparisons", ncmp); rep.count("cuts", done);
             rep.cover("deck", fs::path(path).filename().string());
@@ -209,8 +224,15 @@ int main(int argc, char** argv) {
 
     rep.run_cases([&](long idx, Rng& rng) {
         gdeck::Opts o;
+        o.vfpDefaultAlq = true;
         gdeck::Generator gen(rng, o);
         gdeck::Model m = gen.generate();
+        // the two keywords of the known finding meet by themselves once in some thousand models; put them in place in 4 % of the models
+        if (!m.hasLiftOpt && m.steps.size() >= 3 && rng.chance(0.04)) {
+            m.steps[0].kws.push_back({"VFPPROD", std::string("VFPPROD\n 97 2000 'LIQ' 'WCT' 'GOR' 'THP' 1* '") + (m.units == "LAB" ? "LAB" : m.units) + "' 'BHP' /\n 100 500 1000 /\n 10 20 /\n 0 0.5 /\n 50 /\n 0 /\n 1 1 1 1 110 130 160 /\n 1 2 1 1 112 130 160 /\n 2 1 1 1 120 140 170 /\n 2 2 1 1 123 140 170 /\n"});
+            m.steps.back().kws.push_back({"LIFTOPT", "LIFTOPT\n 12500 5E-3 37. 'YES' /\n"});
+            rep.count("models_with_defaulted_alq_table_and_later_LIFTOPT");
+        }
         std::string stat = m.staticPart();
         std::string full = stat + "SCHEDULE\n" + m.scheduleText();
         Built F;
@@ -262,7 +284,7 @@ int main(int argc, char** argv) {
                 for (size_t s = k + 1; s < nsteps; ++s) if (!m.steps[s].kws.empty()) tailNonEmpty = true;
                 tailChanges = tailChanges || tailNonEmpty;
                 if (!diff.empty()) {
-                    rep.violation(key + (variant == 0 ? ":truncation" : ":changed-tail"), "changing the input after report step " + std::to_string(k) + " changes an earlier state: " + diff.substr(0, 300),
+                    rep.violation(key.find("vfpprod-defaulted") != std::string::npos ? key : key + (variant == 0 ? ":truncation" : ":changed-tail"), "changing the input after report step " + std::to_string(k) + " changes an earlier state: " + diff.substr(0, 300),
                                   "--- full deck ---\n" + full + "\n--- changed deck ---\n" + text + "\n--- difference ---\n" + diff);
                     break;
                 }
